@@ -3,20 +3,38 @@
 use crate::model::css::{Complex, SelList, Simple};
 use crate::tape::Tape;
 
-const TYPES: &[&str] = &["div", "span", "p", "a", "li", "b", "DIV", "g", "img", "br", "averyveryverylongtagname", "custom-element", "svg", "foreignObject", "foreignobject", "mi", "ul", "section", "title", "style", "x1"];
+const TYPES: &[&str] = &["div", "span", "p", "a", "li", "b", "DIV", "g", "img", "br", "averyveryverylongtagname", "custom-element", "svg", "foreignObject", "foreignobject", "mi", "ul", "section", "title", "style", "x1", "custom-elements", "averyveryverylongtagnam", "di", "divv"];
 // attribute names: none from the `selectors` crate's legacy case-insensitive-value list
 const ATTRS: &[&str] = &["id", "class", "href", "title", "data-x", "x", "y", "abc", "ABC", "Class", "role", "name"];
 const VALS: &[&str] = &["", "a", "b", "a b", "ab", "AB", "A", "a-b", "x", "-", "abc", "é", "1", "x y z", " ", "b a"];
 const IDENTS: &[&str] = &["a", "b", "ab", "AB", "abc", "x", "a-b"];
 
+fn val(t: &mut Tape<'_>) -> String {
+    if t.chance(1, 3) {
+        let n = t.range(0, 4);
+        (0..n).map(|_| *t.pick(&['a', 'b', 'a', 'b', 'A', ' ', '-'])).collect()
+    } else {
+        t.pick(VALS).to_string()
+    }
+}
+
+fn ident(t: &mut Tape<'_>) -> String {
+    if t.chance(1, 4) {
+        let n = t.range(1, 3);
+        (0..n).map(|_| *t.pick(&['a', 'b', 'A'])).collect()
+    } else {
+        t.pick(IDENTS).to_string()
+    }
+}
+
 pub fn simple(t: &mut Tape<'_>, depth: usize, allow_not: bool, allow_flattened: bool) -> Simple {
     match t.below(if allow_not && depth < 3 { 10 } else { 8 }) {
         0 | 1 => Simple::Type(t.pick(TYPES).to_string()),
         2 => Simple::Any,
-        3 => Simple::Id(t.pick(IDENTS).to_string()),
-        4 => Simple::Class(t.pick(IDENTS).to_string()),
+        3 => Simple::Id(ident(t)),
+        4 => Simple::Class(ident(t)),
         5 => Simple::AttrExists(t.pick(ATTRS).to_string()),
-        6 => Simple::Attr { name: t.pick(ATTRS).to_string(), op: *t.pick(&["=", "~=", "|=", "^=", "$=", "*="]), val: t.pick(VALS).to_string(), flag: *t.pick(&[None, None, Some('i'), Some('s')]) },
+        6 => Simple::Attr { name: t.pick(ATTRS).to_string(), op: *t.pick(&["=", "~=", "|=", "^=", "$=", "*="]), val: val(t), flag: *t.pick(&[None, None, Some('i'), Some('s')]) },
         7 => Simple::Nth { of_type: t.chance(2, 5), a: *t.pick(&[0, 1, 2, 3, -1, -2, 2, 0]), b: *t.pick(&[0, 1, 2, 3, -1, 5, 1, -3]), style: t.below(2) as u8 },
         _ => {
             // :not(simple | compound | list), nested
